@@ -1459,6 +1459,10 @@ M('C14', 'TDVP prepare_evolve clears the environments only if chi changed (round
   "            self.env.clear()\n\n            logger.info(f'Original bond dimension: {self.psi.chi}.')", "            chi_before = list(self.psi.chi)\n            logger.info(f'Original bond dimension: {self.psi.chi}.')",
   'CACHE-invalidate')
 
+M('C15', 'eigh_rho takes the trace before clamping small eigenvalues (round-5 seed a)', TR,
+  "    W[W < 1.0e-14] = 0  # set small eigenvalues to zero\n    renormalization = np.sum(W)\n", "    renormalization = np.sum(W)\n    W[W < 1.0e-14] = 0  # set small eigenvalues to zero\n",
+  'TRUNC-norm-version')
+
 # ---------------------------------------------------------------- C16 / C19
 M('C16', 'GMRES restart: relative residual norm used for normalisation (round-3 seed b)', KRY,
   """        self.total_error.append([npc.norm(self.rs[-1]) / self.b_norm])
